@@ -176,6 +176,29 @@ theorem scopedInsert_mem : ∀ (m : ScopedCrateTypes) (crate ty : Str) (oi : Boo
 /-- what is known about the crate map handed to `used_imports` -/
 def Defines (all : List (Str × List Str)) (c t : Str) : Prop := ∃ names, (c, names) ∈ all ∧ t ∈ names
 
+theorem scopedEnsure_mem : ∀ (m : ScopedCrateTypes) (crate c t : Str),
+    (∃ tys, (c, tys) ∈ scopedEnsure m crate ∧ t ∈ tys) → ∃ tys, (c, tys) ∈ m ∧ t ∈ tys
+  | [], crate, c, t, h => by
+    simp only [scopedEnsure, List.mem_singleton, Prod.mk.injEq] at h
+    obtain ⟨tys, ⟨_, rfl⟩, ht⟩ := h
+    simp at ht
+  | (k, v) :: rest, crate, c, t, h => by
+    simp only [scopedEnsure] at h
+    split at h
+    · exact h
+    · split at h
+      · obtain ⟨tys, hm, ht⟩ := h
+        simp only [List.mem_cons, Prod.mk.injEq] at hm
+        rcases hm with ⟨_, rfl⟩ | hm
+        · simp at ht
+        · exact ⟨tys, by simpa using hm, ht⟩
+      · obtain ⟨tys, hm, ht⟩ := h
+        simp only [List.mem_cons] at hm
+        rcases hm with hm | hm
+        · exact ⟨tys, by simp [hm], ht⟩
+        · obtain ⟨tys', hm', ht'⟩ := scopedEnsure_mem rest crate c t ⟨tys, hm, ht⟩
+          exact ⟨tys', by simp [hm'], ht'⟩
+
 /-- **soundness of the import clause**: every imported (crate, type) pair is a type the imported
 crate defines, and the current crate is never imported from — provided the fallback oracle
 `firstOther` (the "first other crate defining the name" of the Rust code) only answers with such
@@ -193,7 +216,7 @@ theorem usedImports_sound (d : ParsedData) (all : List (Str × List Str)) (impor
       ∀ c t, (∃ tys, (c, tys) ∈ imps.foldl (fun m imp =>
           match all.find? (·.1 == imp.baseCrate) with
           | some (_, names) =>
-            if imp.typeName == s%"*" then names.foldl (fun m n => scopedInsert m imp.baseCrate n false) m
+            if imp.typeName == s%"*" then names.foldl (fun m n => scopedInsert m imp.baseCrate n true) (scopedEnsure m imp.baseCrate)
             else if names.contains imp.typeName then scopedInsert m imp.baseCrate imp.typeName true
             else (match firstOther imp.typeName with
               | some c => scopedInsert m c imp.typeName true
@@ -233,10 +256,10 @@ theorem usedImports_sound (d : ParsedData) (all : List (Str × List Str)) (impor
           have := List.mem_of_find?_eq_some hfind; rw [hk] at this; exact this
         simp only at h'
         split at h'
-        · -- glob: only names of that crate are inserted, and only into an existing entry
+        · -- glob: only names of that crate are inserted (into an entry that is created empty if need be)
           have : ∀ (ns : List Str) (m' : ScopedCrateTypes), (∀ n ∈ ns, n ∈ names) →
               (∀ c t, (∃ tys, (c, tys) ∈ m' ∧ t ∈ tys) → c ≠ d.crateName ∧ Defines all c t) →
-              ∀ c t, (∃ tys, (c, tys) ∈ ns.foldl (fun m n => scopedInsert m imp.baseCrate n false) m' ∧ t ∈ tys) →
+              ∀ c t, (∃ tys, (c, tys) ∈ ns.foldl (fun m n => scopedInsert m imp.baseCrate n true) m' ∧ t ∈ tys) →
                 c ≠ d.crateName ∧ Defines all c t := by
             intro ns
             induction ns with
@@ -249,7 +272,8 @@ theorem usedImports_sound (d : ParsedData) (all : List (Str × List Str)) (impor
               rcases scopedInsert_mem _ _ _ _ c2 t2 h2 with h3 | ⟨rfl, rfl⟩
               · exact hm' c2 t2 h3
               · exact ⟨hne, names, hmem, hns _ (by simp)⟩
-          exact this names m (fun _ h => h) hm c' t' h'
+          exact this names (scopedEnsure m imp.baseCrate) (fun _ h => h)
+            (fun c t hh => hm c t (scopedEnsure_mem m imp.baseCrate c t hh)) c' t' h'
         · split at h'
           · rename_i hcont
             rcases scopedInsert_mem _ _ _ _ c' t' h' with h1 | ⟨rfl, rfl⟩
